@@ -281,7 +281,7 @@ BigInit ==
 
 ---------------------------------------------------------------------------
 (* kind "loca": the layout function on size vectors with real sizes        *)
-LocaSizes == {0, 2, 12, 65522, 65534, 65536, 131058, 131070, 131072}
+LocaSizes == {0, 2, 12, 65522, 65534, 65536, 131058, 131070, 131072, 16777204, 16777216}   \* ... 2^16, 2^17, 2^24
 AddSize(s) ==
   /\ ph = "build" /\ Kind = "loca" /\ Len(acc) < MaxGlyphs
   /\ acc' = Append(acc, s)
